@@ -737,6 +737,31 @@ func ruleReaderStartsInsideItsSegment(c *eng.Ctx) {
 // from an earlier rebalance outlives the stream it was taken from (deleted and re-created with another partition count):
 // partitions are left unassigned, or members are given partitions that do not exist.
 func ruleRebalanceCountsPartitionsNow(c *eng.Ctx) {
+
+	// the lookup the group calls is the one it was handed (the metadata store's count), not a wrapper that remembers
+	if ctor := c.Fn("server.newConsumerGroup"); ctor != nil {
+		gf := c.P.Field("server", "consumerGroup", "getStreamPartitions")
+		n, direct := 0, true
+		for _, st := range eng.FieldStores(ctor, func(fa *ssa.FieldAddr) bool { return fieldIs(fa, gf) }) {
+			n++
+			if _, isParam := eng.Strip(st.Val).(*ssa.Parameter); !isParam {
+				direct = false
+			}
+		}
+		for _, f := range c.P.Funcs {
+			if f == ctor {
+				continue
+			}
+			for range eng.FieldStores(f, func(fa *ssa.FieldAddr) bool { return fieldIs(fa, gf) }) {
+				direct = false
+			}
+		}
+		if n == 0 {
+			c.Unresolved("the store of consumerGroup.getStreamPartitions in newConsumerGroup")
+		} else {
+			c.Check(direct, "the group asks the metadata store for partition counts", c.P.Pos(ctor.Pos()), "group.getStreamPartitions = the lookup handed to newConsumerGroup", "consumerGroup.getStreamPartitions is not the lookup the metadata store handed in but something built around it (a per-group cache): a count remembered from before a stream was deleted and re-created with another number of partitions leaves partitions unassigned, or assigns partitions that do not exist")
+		}
+	}
 	p := c.P
 	fn := c.Fn("server.(*consumerGroup).balanceAssignmentsForStream")
 	if fn == nil {
